@@ -296,9 +296,17 @@ def run(ctx_):
     res["failures"] += nv_fails
     nl_status, nl_fails = near_limit_probe(ctx_, work, vals)
     res["failures"] += nl_fails
+    # objects, object arrays and objects embedded in (nested) structs: identity of what arrives, all nine pairings
+    import p_refcount
+    if not ctx_.get("replay"):
+        oid_n, oid_fails = p_refcount.object_identity_probe(ctx_, work, vlib.mkrng(seed, prop + "-objects"))
+        res["failures"] += oid_fails
+    else:
+        oid_n = 0
     res["coverage"] = {
         "near_valid_structs": nv_status, "near_limit_methods": nl_status,
         "data_nine_pairings": {"interfaces": ndata, "implementation_entries": data_lines, "pairings": "C, C++, Rust stubs x C, C++, Rust skeletons"},
+        "object_identity_calls": oid_n,
         "evaluations": ncalls, "distinct_nontrivial": distinct,
         "rule": "%d generated interfaces of 12 methods (0-8 parameters over primitives, buffers, primitive and struct arrays, small and big object-free "
                 "structs, objects, object arrays); every method outside the known classes is called with 3 valuations (boundary lengths 0/1/3/5, "
